@@ -9,7 +9,8 @@ Local Open Scope string_scope.
    operator on incompatible literal types, == between different types, not / and / or on a non-bool, unary
    minus on a non-number, calling a non-function, calling a function expression with the wrong number of
    arguments, a returned value contradicting the declared return type, a non-bool if / loop condition, a
-   heterogeneous list, a value contradicting the declared type of the variable it initialises) and every one-hole program
+   heterogeneous list, a value contradicting the declared type of the variable it initialises, a compound
+   assignment `x op= x` on a type without that operator) and every one-hole program
    context P (every syntactic position inside the value of any top-level definition, at any depth -
    operand, argument, list / tuple element, blob field initialiser, condition, branch, loop body, function
    and closure body, case arm, unused expression statement - or a top-level definition itself), every fuel
@@ -128,6 +129,18 @@ Proof. eapply BadRetType; reflexivity. Qed.
 Example C03_example_ret_type_rejects :
   typecheck 40 (prog [SStatementExpression (EFunction "lambda" [] (TResolved BInt (spl 3)) [SRet (Some (EStr "a" (spl 3))) (spl 3)] false (spl 3)) (spl 3)])
   = Err (mkErr KMismatch (spl 3)) [].
+Proof. vm_compute. reflexivity. Qed.
+
+(* do x := true ; x += x end *)
+Example C03_example_compound_self :
+  bad_stmt (SBlock [SDefinition "x" 1 Mutable (TImplied (spl 2)) (EBool true (spl 2)) (spl 2);
+                    SAssignment Add (ERead 1 (spl 3)) (ERead 1 (spl 3)) (spl 3)] (spl 2)).
+Proof. eapply BadCompoundSelf with (k := AAdd); try reflexivity. left. auto. Qed.
+
+Example C03_example_compound_self_rejects :
+  typecheck 40 (prog [SBlock [SDefinition "x" 1 Mutable (TImplied (spl 2)) (EBool true (spl 2)) (spl 2);
+                              SAssignment Add (ERead 1 (spl 3)) (ERead 1 (spl 3)) (spl 3)] (spl 2)])
+  = Err (mkErr KBinOp (spl 3)) [].
 Proof. vm_compute. reflexivity. Qed.
 
 (* the hypotheses of the unification theorems are satisfiable: two fresh variables unify *)
